@@ -9,7 +9,7 @@ import (
 func TestVerif(t *testing.T) {
 	driver.Main(t, driver.Harness{
 		ID:    "C11",
-		Level: "model_checking",
+		Level: "exploration",
 		Rule: "every case is one Push with default options into a file store on a fresh sandbox (tmpfs): <top>/1/2/3/{wd = working directory, cwd = process CWD holding 'victim', outside/{f,d/g}, wd-sibling/s, tmp = TMPDIR}. " +
 			"After every Push the recursive (type, mode, content, link target) picture of everything under <top> except wd and tmp must equal the picture taken when the sandbox was built. " +
 			"(a) titles: every path of 1..4 segments over {a, .., ., empty, wd-sibling} x forms {relative, absolute under wd, absolute under wd's parent, absolute at the real root} x {no, trailing slash} x {plain blob, tar+gzip with unpack annotation holding one regular entry <title>/f} x wd {empty, a=file, a=dir, a=symlink to .} x {default, DisableOverwrite} (real-root form: empty wd and default only); " +
